@@ -53,8 +53,10 @@ func (c *RawHTTPResponder) AddHeader(name string, value string) {
 
 func (c *RawHTTPResponder) SetHeaders(headers http.Header) {
 	for key, values := range headers {
+		// Replace the field as a whole, keeping every value in order (Set-Cookie, Link, Vary, ...).
+		c.response.Header.Del(key)
 		for _, value := range values {
-			c.SetHeader(key, value)
+			c.AddHeader(key, value)
 		}
 	}
 }
